@@ -11,7 +11,7 @@
  R7 identity           a referrer counts when the inverted attribute (single or aggregate element) is the loaded instance itself
 """
 import re
-from ir import walk, strip, expr_str
+from ir import walk, strip, expr_str, access_path
 from engines import call_args, known_facts
 
 PID = "C11"
@@ -38,7 +38,8 @@ EXPLANATION = (
     "the next referrer is added to. "
     "(R1b) every lazyRefs member container changed during the per-attribute pass is emptied in checkAnInvAttr before the calls that change it. (R4b) every instance that enters the cache is queued for inverse resolution under the same conditions, and the queue is drained (entry taken, removed, resolved) under `no instance is half-read`, with the depth counter bracketing exactly the attribute reads. (R8) a parameter whose member is created on demand is a reference or pointer. (R9) clients of the recursive super/subtype iterators take elements either through current() or through the value of next(), never both. Not decided: that the resulting sets equal the true referrers for every population (needs the run-time population)."
     " (R10) every loop of lazyRefs whose body inserts into a container (the subtype closure of the inverted entity, the inverse attributes of the supertypes, the candidate referrers) runs until its iterator is exhausted: no break, return or goto leaves it from the body."
-    " (R11) in the search loops of lazyRefs every criterion (conjunct) of a multi-criteria match mentions the loop variable or a value computed from it: no criterion is the same for every element.")
+    " (R11) in the search loops of lazyRefs every criterion (conjunct) of a multi-criteria match mentions the loop variable or a value computed from it: no criterion is the same for every element."
+    " (R12) aggregate-or-single storage of an inverse attribute is decided by IsAggrType() of the inverse attribute itself; the referrer's attribute is found by the descriptor the dictionary resolved for the inverse attribute, so inherited inverted attributes match.")
 
 
 def lazyfn(prog, name):
@@ -174,9 +175,19 @@ def r3_sentinel(prog, res):
     res.add("R3.sentinel_known", "R3|src/cllazyfile/lazyRefs.h|attrIndex|returns-minus-one", g.where() if g else "src/cllazyfile/lazyRefs.h:1", bool(neg),
             "attrIndex() returns -1 for 'no such attribute'" if neg else "attrIndex() no longer returns -1 for 'not found' (re-read the rule)")
     for f in prog.all_functions():
+        cand = {}
         for x in f.walk():
+            # the variable that receives an attrIndex() result: at its declaration or by a later assignment
             if x["k"] == "Var" and x.get("ch") and strip(x["ch"][0]) is not None and strip(x["ch"][0])["k"] == "Call" and \
                     (strip(x["ch"][0]).get("fn") or "").endswith("lazyRefs::attrIndex"):
+                cand.setdefault(x["d"], x)
+            if x["k"] == "Assign" and strip(x["ch"][0]) is not None and strip(x["ch"][0])["k"] == "Ref" and strip(x["ch"][1]) is not None and \
+                    strip(x["ch"][1])["k"] == "Call" and (strip(x["ch"][1]).get("fn") or "").endswith("lazyRefs::attrIndex"):
+                decl = [v for v in f.walk() if v["k"] == "Var" and v.get("d") == strip(x["ch"][0])["d"]]
+                if decl:
+                    cand.setdefault(decl[0]["d"], decl[0])
+        for x in cand.values():
+            if True:
                 d = x["d"]
                 for u in f.walk():
                     if u["k"] == "Call" and u.get("opcall") == "[]" or u["k"] == "Subscript":
@@ -590,6 +601,67 @@ def r11_match_depends_on_element(prog, res):
     res.floor("R11.match_depends_on_element", "multi-criteria matches in lazyRefs search loops", n, 1)
 
 
+def r12_inverse_kind_and_lookup(prog, res):
+    """(a) Whether an inverse attribute holds one referrer or an aggregate of them is a property of the inverse attribute itself (its
+    domain: `SET OF assembly FOR main_part` is an aggregate although `main_part` is single-valued).  The branch of loadInstIFFreferent
+    that fills `ias.a` resp. `ias.i` must be decided by IsAggrType() called on the Inverse_attribute, not on the attribute it inverts -
+    otherwise the generated accessor reads the other member of the union (crash), or several referrers are refused.
+    (b) The inverted attribute may be one the inverted entity inherits (`SET OF sub_assembly FOR parts`, `parts` declared by
+    `assembly`): the referrer's attribute is found by the *descriptor* the dictionary resolved for the inverse attribute
+    (`getADesc() == ia->inverted_attr_()`), not only by the pair (attribute name, name of the inverted entity), which never matches an
+    inherited attribute."""
+    f = lazyfn(prog, "loadInstIFFreferent")
+    g = lazyfn(prog, "refersToCurrentInst")
+    if f is None or g is None:
+        res.broke("anchor vanished: lazyRefs::loadInstIFFreferent / refersToCurrentInst")
+        return
+    iap = [p_ for p_ in f.params if "Inverse_attribute" in (f.tyname(p_["t"]) if isinstance(p_.get("t"), int) else "")]
+    ok = False
+    where = f.where()
+    why = "no branch that fills ias.a / ias.i found"
+    for x in f.walk():
+        if x["k"] != "If" or len(x["ch"]) < 3 or x["ch"][2] is None:
+            continue
+        wa = any(y["k"] == "Assign" and (access_path(y["ch"][0]) or "").endswith(".a") for y in walk(x["ch"][1]))
+        wi = any(y["k"] == "Assign" and (access_path(y["ch"][0]) or "").endswith(".i") for y in walk(x["ch"][2]))
+        if not (wa and wi):
+            continue
+        c = strip(x["ch"][0])
+        while c is not None and c["k"] == "Cast" and c.get("ch"):
+            c = strip(c["ch"][0])
+        where = f.where(x)
+        if c is not None and c["k"] == "Call" and (c.get("fn") or "").endswith("IsAggrType") and c.get("ch"):
+            o = strip(c["ch"][0])
+            while o is not None and o["k"] == "Cast" and o.get("ch"):
+                o = strip(o["ch"][0])
+            ok = o is not None and o["k"] == "Ref" and iap and o.get("d") == iap[0]["d"]
+            why = "decided by `%s`" % expr_str(c)[:60]
+        else:
+            why = "decided by `%s`" % expr_str(x["ch"][0])[:60]
+    res.add("R12.inverse_kind_is_its_own", "R12|src/cllazyfile/lazyRefs.h|loadInstIFFreferent|kind", where, ok,
+            "aggregate or single storage of the inverse attribute is decided by IsAggrType() of the inverse attribute itself" if ok else
+            "aggregate or single storage is %s, not by IsAggrType() of the inverse attribute: `SET OF e FOR single_valued_attribute` is stored "
+            "as one instance and read as an aggregate" % why)
+    byd = False
+    for y in g.walk():
+        if y["k"] == "Binary" and y.get("op") == "==" or (y["k"] == "Call" and y.get("opcall") == "=="):
+            txt = [expr_str(c) for c in (y.get("ch") or [])]
+            if any("getADesc" in t for t in txt):
+                other = [c for c in y["ch"] if "getADesc" not in expr_str(c)]
+                for o in other:
+                    o = strip(o)
+                    if o is not None and o["k"] == "Ref":
+                        defs = [v for v in g.walk() if v["k"] == "Var" and v.get("d") == o.get("d") and v.get("ch") and v["ch"][0] is not None]
+                        if any("inverted_attr_" in expr_str(v["ch"][0]) for v in defs):
+                            byd = True
+                    elif o is not None and "inverted_attr_" in expr_str(o):
+                        byd = True
+    res.add("R12.inverted_attribute_by_descriptor", "R12|src/cllazyfile/lazyRefs.h|refersToCurrentInst|lookup", g.where(), byd,
+            "the referrer's attribute is found by the descriptor resolved for the inverse attribute (inherited inverted attributes included)" if byd else
+            "refersToCurrentInst finds the referrer's attribute only by (attribute name, name of the inverted entity): an inverted attribute that "
+            "the inverted entity inherits from a supertype is owned by that supertype and is never matched - the inverse attribute stays empty")
+
+
 def run(prog, res, tier):
     r9_iterator_protocol(prog, res)
     r8_accumulator_shared(prog, res)
@@ -601,3 +673,4 @@ def run(prog, res, tier):
     r7_identity(prog, res)
     r10_collection_walk_exhaustive(prog, res)
     r11_match_depends_on_element(prog, res)
+    r12_inverse_kind_and_lookup(prog, res)
